@@ -26,20 +26,48 @@ Qed.
 Lemma aligned_wf {A B} (s1 : slab A) (s2 : slab B) : aligned s1 s2 -> slab_wf s1 -> slab_wf s2.
 Proof. intros [Hs Hf] [H1 H2]. unfold slab_wf. rewrite <- Hs, <- Hf. auto. Qed.
 
-Lemma ktrace_res_events K id link (l : list drequest) :
-  Forall (fun a => a = KRes) (ktrace K (map (fun rq => (id, (link, dr_filter rq, dr_idx rq), KRes)) l)).
+Definition mkres (id link : N) (client : str) (rq : drequest) : dev :=
+  (id, (link, dr_filter rq, dr_idx rq), KRes client (snd (dr_cursor rq))).
+
+Lemma ktrace_res_events K id link client (l : list drequest) :
+  Forall (fun a => is_res a = true) (ktrace K (map (mkres id link client) l)).
 Proof.
-  induction l as [|rq l IH]; cbn [map]; [constructor|].
+  induction l as [|rq l IH]; cbn [map]; [constructor|]. unfold mkres at 1.
   destruct (dkey_dec K (link, dr_filter rq, dr_idx rq)) as [-> | Hne].
-  - rewrite ktrace_cons_same. constructor; [reflexivity|exact IH].
+  - rewrite ktrace_cons_same by reflexivity. constructor; [reflexivity|exact IH].
   - rewrite ktrace_cons_other by exact Hne. exact IH.
 Qed.
 
-Lemma ktrace_res_other K id link (l : list drequest) :
-  fst (fst K) <> link -> ktrace K (map (fun rq => (id, (link, dr_filter rq, dr_idx rq), KRes)) l) = [].
+Lemma ktrace_res_other K id link client (l : list drequest) :
+  fst (fst K) <> link -> ktrace K (map (mkres id link client) l) = [].
 Proof.
-  intros Hne. induction l as [|rq l IH]; cbn [map]; [reflexivity|]. rewrite ktrace_cons_other; [exact IH|].
+  intros Hne. induction l as [|rq l IH]; cbn [map]; [reflexivity|]. unfold mkres at 1. rewrite ktrace_cons_other; [exact IH|].
   intros ->. apply Hne. reflexivity.
+Qed.
+
+(** at most one marker per key when the restored requests have pairwise different filters *)
+Lemma ktrace_res_len id link client f i (l : list drequest) :
+  (length (ktrace (link, f, i) (map (mkres id link client) l)) <= cnt f l)%nat.
+Proof.
+  induction l as [|rq l IH]; cbn [map]; [cbn; lia|]. unfold mkres at 1. rewrite cnt_cons. unfold fmatch.
+  destruct (dkey_dec (link, f, i) (link, dr_filter rq, dr_idx rq)) as [E | Hne].
+  - inversion E as [[Ef Ei]]. subst f i. rewrite ktrace_cons_same by reflexivity. rewrite str_eqb_refl. cbn [length]. lia.
+  - rewrite ktrace_cons_other by exact Hne. lia.
+Qed.
+
+Lemma cnt_filter_le f (g : drequest -> bool) l : (cnt f (filter g l) <= cnt f l)%nat.
+Proof.
+  induction l as [|x l IH]; [cbn; lia|]. cbn [filter]. destruct (g x); rewrite ?cnt_cons; lia.
+Qed.
+
+Lemma cnt_le1_eq f l r1 r2 :
+  (cnt f l <= 1)%nat -> In r1 l -> In r2 l -> dr_filter r1 = f -> dr_filter r2 = f -> r1 = r2.
+Proof.
+  induction l as [|x l IH]; intros Hc H1 H2 F1 F2; [destruct H1|]. rewrite cnt_cons in Hc. unfold fmatch in Hc.
+  destruct H1 as [<- | H1], H2 as [<- | H2]; [reflexivity| | |].
+  - rewrite F1, str_eqb_refl in Hc. pose proof (TraceRunInv.cnt_in _ _ H2) as X. rewrite F2 in X. lia.
+  - rewrite F2, str_eqb_refl in Hc. pose proof (TraceRunInv.cnt_in _ _ H1) as X. rewrite F1 in X. lia.
+  - apply IH; auto. destruct (str_eqb (dr_filter x) f); lia.
 Qed.
 
 Lemma ktrace_fresh tr link f i :
@@ -47,40 +75,68 @@ Lemma ktrace_fresh tr link f i :
 Proof.
   intros Hfresh. destruct (ktrace (link, f, i) tr) as [|x l] eqn:E; [reflexivity|].
   assert (Hin : In x (ktrace (link, f, i) tr)) by (rewrite E; now left).
-  apply ktrace_In in Hin as (id0 & Hin). specialize (Hfresh _ _ _ _ _ Hin). lia.
+  apply ktrace_In in Hin as (_ & id0 & Hin). specialize (Hfresh _ _ _ _ _ Hin). lia.
+Qed.
+
+Lemma disc_ghost_link st id st' id0 k f i a :
+  In (id0, (k, f, i), a) (disc_ghost st id st') -> exists o, slab_get (r_obufs st) id = Some o /\ k = o_link o.
+Proof.
+  unfold disc_ghost. destruct (slab_get (r_obufs st) id) as [o|]; [|intros []].
+  destruct (slab_get (r_trackers st) id) as [t|]; [|intros []]. destruct (slab_get (r_conns st) id) as [c|]; [|intros []].
+  destruct (c_clean c); [intros []|]. destruct (al_get str_eqb (tr_id t) (r_graveyard st')) as [[ss|]|]; try (intros []).
+  intros Hin. apply in_map_iff in Hin as (rq & E & _). inversion E; subst. eauto.
 Qed.
 
 (** the new connection gets a link number no event carries yet; each non-shared request its
-    restored session brings gets the resume marker under the new key *)
+    restored session brings gets the resume marker under the new key; a live connection of the
+    same client is closed first (its end markers come first) *)
 Lemma handle_new_connection_di cfg st conn link st' tr :
-  RInvC cfg st -> r_notif st = [] -> CInv st -> link < lenN (r_links st) ->
+  RInvC cfg st -> r_notif st = [] -> DevEI st -> CInv st -> LinkInv st -> link < lenN (r_links st) ->
   (forall id k f i a, In (id, (k, f, i), a) tr -> k < link) ->
   (forall id o, slab_get (r_obufs st) id = Some o -> o_link o < link) ->
   DI st [] tr ->
   handle_new_connection st conn link = Ok st' ->
-  DI st' [] (tr ++ conn_ghost st' (c_client conn) link).
+  DI st' [] (tr ++ take_ghost st (c_client conn) ++ conn_ghost st' (c_client conn) link).
 Proof.
-  intros HR Hn HI Hlk Hfresh Hlinks HDI H.
+  intros HR Hn HD HI HL Hlk Hfresh0 Hlinks HDI0 H.
   destruct (handle_new_connection_cinv _ _ _ _ HI H) as [HI' _].
-  unfold handle_new_connection in H.
-  destruct (negb (validate_clientid (c_client conn))).
-  { inv_ok. rewrite conn_ghost_none by exact Hlinks. now rewrite app_nil_r. }
+  unfold handle_new_connection in H. unfold take_ghost.
+  destruct (validate_clientid (c_client conn)); cbn [negb] in H.
+  2:{ inv_ok. rewrite conn_ghost_none by exact Hlinks. now rewrite !app_nil_r. }
   apply bind_ok in H as (st1 & H1 & H).
-  assert (X1 : RInvC cfg st1 /\ r_notif st1 = [] /\ CInv st1 /\ DI st1 [] tr /\ lenN (r_links st1) = lenN (r_links st) /\
-               (forall id o, slab_get (r_obufs st1) id = Some o -> o_link o < link)).
-  { destruct (al_get str_eqb (c_client conn) (r_cmap st)) as [cid|]; [|inv_ok; auto 10].
+  set (tg := match al_get str_eqb (c_client conn) (r_cmap st) with
+             | Some cid => match handle_disconnection st cid None with Ok s => disc_ghost st cid s | _ => [] end
+             | None => [] end).
+  assert (X1 : RInvC cfg st1 /\ r_notif st1 = [] /\ DevEI st1 /\ CInv st1 /\ DI st1 [] (tr ++ tg) /\
+               lenN (r_links st1) = lenN (r_links st) /\
+               (forall id o, slab_get (r_obufs st1) id = Some o -> o_link o < link) /\
+               (forall id k f i a, In (id, (k, f, i), a) (tr ++ tg) -> k < link)).
+  { unfold tg. destruct (al_get str_eqb (c_client conn) (r_cmap st)) as [cid|].
+    2:{ inv_ok. rewrite app_nil_r. auto 10. }
+    rewrite H1.
     destruct (wp_ok_inv _ _ _ _ (handle_disconnection_spec cfg st cid None HR Hn) H1) as (A & B & _ & _).
+    pose proof (wpd_ok_inv _ _ _ (handle_disconnection_loc cfg st cid None HR Hn HD) H1) as HD1.
     destruct (handle_disconnection_cinv _ _ _ _ HI H1) as [HI1 L1].
     destruct (handle_disconnection_obs _ _ _ _ H1) as (Ob & _ & EL & _).
-    split; [exact A|]. split; [exact B|]. split; [exact HI1|]. split; [|split; [exact EL|]].
-    - eapply di_frame; [exact HI|constructor|eapply handle_disconnection_hsub; exact H1
-                       |eapply obs_at_sub; exact Ob|exact L1|lia|exact HDI].
+    split; [exact A|]. split; [exact B|]. split; [exact HD1|]. split; [exact HI1|].
+    split; [eapply handle_disconnection_di; eassumption|]. split; [exact EL|]. split.
     - intros id o Ho. destruct (obs_at_sub _ _ _ Ob _ _ Ho) as (o0 & Ho0 & Hs). apply ostep_link in Hs as [Hs _].
-      rewrite Hs. eapply Hlinks; exact Ho0. }
-  destruct X1 as (HR1 & Hn1 & HI1 & HDI1 & EL1 & Hlinks1). clear H1 HI HDI HR Hn Hlinks.
+      rewrite Hs. eapply Hlinks; exact Ho0.
+    - intros id k f i a Hin. apply in_app_or in Hin as [Hin | Hin]; [eapply Hfresh0; exact Hin|].
+      destruct (disc_ghost_link _ _ _ _ _ _ _ _ Hin) as (o & Ho & ->). eapply Hlinks; exact Ho. }
+  destruct X1 as (HR1 & Hn1 & HD1 & HI1 & HDI1 & EL1 & Hlinks1 & Hfresh). clear H1 HI HDI0 HR Hn Hlinks HD Hfresh0 HL.
+  rewrite app_assoc. remember (tr ++ tg) as trx eqn:Etrx.
+  enough (X : DI st' [] (trx ++ conn_ghost st' (c_client conn) link)) by (rewrite Etrx in X; exact X). clear Etrx.
   destruct (cf_max_connections (r_cfg st1) <=? slab_len (r_conns st1)).
   { inv_ok. rewrite conn_ghost_none by exact Hlinks1. now rewrite app_nil_r. }
   match type of H with (match ?X with _ => _ end) = _ => destruct X as [[trk conn1] pubrels] eqn:EX end.
+  (* the restored requests have pairwise different filters *)
+  assert (Huq : forall f, (cnt f (tr_reqs trk) <= 1)%nat).
+  { intros f. destruct (negb (c_clean conn)).
+    - destruct (al_get str_eqb (c_client conn) (r_graveyard st1)) as [[ss|]|] eqn:Es; inv_ok; cbn [tr_reqs]; try (cbn; lia).
+      apply al_get_In in Es. pose proof (de_grave _ _ HD1) as G. rewrite Forall_forall in G. specialize (G _ Es f).
+      unfold okE in G. cbn [snd] in G. destruct (set_mem str_eqb f (ss_subs ss)); lia.
+    - inv_ok. cbn. lia. }
   destruct (slab_insert (r_conns st1) (set_c_will conn1 None)) as [conns id] eqn:Ic.
   destruct (slab_insert (r_ibufs st1) _) as [ibufs id_i] eqn:Ii.
   destruct (slab_insert (r_obufs st1) _) as [obufs id_o] eqn:Io.
@@ -104,15 +160,21 @@ Proof.
     assert (G : slab_get (slab_put trackers id t') id = Some t') by (eapply slab_get_put_occ; exact Ht2).
     destruct woke; inv_ok; rsimpl; (repeat split; try reflexivity); exists t'; auto. }
   destruct F as (Fc & Fo & Fd & Fl & t' & Ft' & Fr).
-  set (evs := map (fun rq => (id, (link, dr_filter rq, dr_idx rq), KRes)) (filter unshared_b (tr_reqs trk))).
-  assert (Eg : conn_ghost st' (c_client conn) link = evs).
+  set (client := c_client conn) in *.
+  set (ureqs := filter unshared_b (tr_reqs trk)).
+  set (evs := map (mkres id link client) ureqs).
+  assert (Eg : conn_ghost st' client link = evs).
   { unfold conn_ghost. rewrite Fc. cbn [st2 r_cmap]. rewrite DataLogInv.al_get_set_eq, Fo. cbn [st2 r_obufs].
     rewrite Ho2, Ft'. cbn [o_link]. rewrite N.eqb_refl, Fr. reflexivity. }
   rewrite Eg.
-  assert (HDI2 : DI st2 [] (tr ++ evs)).
+  assert (Hlen : forall f i, (length (ktrace (link, f, i) evs) <= 1)%nat).
+  { intros f i. unfold evs. pose proof (ktrace_res_len id link client f i ureqs). pose proof (cnt_filter_le f unshared_b (tr_reqs trk)).
+    specialize (Huq f). unfold ureqs in *. lia. }
+  assert (HDI2 : DI st2 [] (trx ++ evs)).
   { destruct HDI1 as [D1 D2 D3 D4 D5 D6 D7].
     assert (Hev : forall id0 k f i a, In (id0, (k, f, i), a) evs ->
-              id0 = id /\ k = link /\ a = KRes /\ exists rq, In rq (tr_reqs trk) /\ dr_group rq = None /\ f = dr_filter rq /\ i = dr_idx rq).
+              id0 = id /\ k = link /\ exists rq, In rq (tr_reqs trk) /\ dr_group rq = None /\ f = dr_filter rq /\ i = dr_idx rq /\
+                                                   a = KRes client (snd (dr_cursor rq))).
     { intros id0 k f i a Hin. unfold evs in Hin. apply in_map_iff in Hin as (rq & E & Hrq). inversion E; subst.
       apply filter_In in Hrq as [Hrq Hu]. repeat (split; [reflexivity|]). exists rq. split; [exact Hrq|].
       split; [|auto]. unfold unshared_b in Hu. destruct (dr_group rq); [discriminate|reflexivity]. }
@@ -134,26 +196,34 @@ Proof.
         destruct Hok as [_ Hw]. rewrite Forall_forall in Hw. destruct (Hw _ Hin) as [Hocc _]. cbn [fst] in Hocc.
         apply occ_get in Hocc as [c0 Hc0]. unfold lives in Hc0. congruence.
       - exfalso. change (r_notif st2) with (r_notif st1) in Hnn. rewrite Hn1 in Hnn. destruct Hnn. }
+    assert (Hin_ev : forall rq, In rq (tr_reqs trk) -> dr_group rq = None ->
+              ktrace (link, dr_filter rq, dr_idx rq) evs = [KRes client (snd (dr_cursor rq))]).
+    { intros rq Hrq Hg.
+      assert (Hin : In (KRes client (snd (dr_cursor rq))) (ktrace (link, dr_filter rq, dr_idx rq) evs)).
+      { apply ktrace_In. split; [reflexivity|]. exists id. unfold evs. apply in_map_iff. exists rq. split; [reflexivity|].
+        apply filter_In. split; [exact Hrq|]. unfold unshared_b. now rewrite Hg. }
+      specialize (Hlen (dr_filter rq) (dr_idx rq)).
+      destruct (ktrace (link, dr_filter rq, dr_idx rq) evs) as [|x [|y l]]; [destruct Hin| |cbn [length] in Hlen; lia].
+      destruct Hin as [<- | []]. reflexivity. }
     constructor.
     - intros id0 k f i a Hin. change (r_links st2) with (r_links st1). rewrite EL1.
       apply in_app_or in Hin as [Hin | Hin]; [specialize (Hfresh _ _ _ _ _ Hin); lia|].
       destruct (Hev _ _ _ _ _ Hin) as (_ & -> & _). exact Hlk.
     - intros id0 k f i a Hin. apply in_app_or in Hin as [Hin | Hin]; [eapply D2; eassumption|].
-      destruct (Hev _ _ _ _ _ Hin) as (_ & _ & -> & rq & Hrq & _ & _ & ->).
+      destruct (Hev _ _ _ _ _ Hin) as (_ & _ & rq & Hrq & _ & _ & -> & ->).
       assert (Hok : RqOk (r_datalog st') rq).
       { destruct HI' as [_ CI']. pose proof (ci_trk _ _ CI' _ _ Ft') as F. rewrite Fr in F. rewrite Forall_forall in F. now apply F. }
-      destruct Hok as [(d & Hd & _) _]. rewrite Fd in Hd. exists d. split; [exact Hd|]. cbn [nxt]. lia.
+      destruct Hok as [(d & Hd & _ & He) _]. rewrite Fd in Hd. exists d. split; [exact Hd|]. cbn [nxt]. exact He.
     - intros [[k f] i]. rewrite ktrace_app. destruct (N.eq_dec k link) as [-> | Hne].
-      + rewrite (ktrace_fresh tr link f i Hfresh). cbn [app]. apply kchain_all_res. apply ktrace_res_events.
+      + rewrite (ktrace_fresh trx link f i Hfresh). cbn [app]. specialize (Hlen f i).
+        destruct (ktrace (link, f, i) evs) as [|x [|y l]]; [exact I|exact I|cbn [length] in Hlen; lia].
       + unfold evs. rewrite ktrace_res_other by exact Hne. rewrite app_nil_r. apply D3.
     - intros c o rq a Ho Hh Hg Hl. rewrite ktrace_app in Hl. change (r_datalog st2) with (r_datalog st1).
       destruct (N.eq_dec c id) as [-> | Hne].
       + cbn [st2 r_obufs] in Ho. rewrite Ho2 in Ho. inversion Ho; subst o. unfold key_of in Hl. cbn [o_link] in Hl.
-        rewrite (ktrace_fresh tr link _ _ Hfresh) in Hl. cbn [app] in Hl. left.
-        pose proof (ktrace_res_events (link, dr_filter rq, dr_idx rq) id link (filter unshared_b (tr_reqs trk))) as Fa.
-        fold evs in Fa. rewrite Forall_forall in Fa. apply Fa.
-        clear -Hl. induction (ktrace (link, dr_filter rq, dr_idx rq) evs) as [|x l IH]; [discriminate|].
-        destruct l; [inversion Hl; now left|right; now apply IH].
+        rewrite (ktrace_fresh trx link _ _ Hfresh) in Hl. cbn [app] in Hl.
+        destruct Hh as [Hh | []]. apply Hnew in Hh. rewrite (Hin_ev _ Hh Hg) in Hl. inversion Hl; subst a.
+        split; [reflexivity|]. discriminate.
       + destruct (Hold _ _ Ho Hne) as [Ho1 Hl1]. unfold evs in Hl. rewrite ktrace_res_other, app_nil_r in Hl by exact Hl1.
         eapply D4; [exact Ho1| |exact Hg|exact Hl]. destruct Hh as [Hh | []]. left. now apply Hheld.
     - intros id0 k f i a c o Hin Ho Hk. apply in_app_or in Hin as [Hin | Hin].
@@ -165,17 +235,12 @@ Proof.
         destruct (Hold _ _ Ho Hne) as [_ Hl1]. congruence.
     - intros c o rq Ho Hh Hg. destruct Hh as [Hh | []]. destruct (N.eq_dec c id) as [-> | Hne].
       + cbn [st2 r_obufs] in Ho. rewrite Ho2 in Ho. inversion Ho; subst o. unfold key_of. cbn [o_link].
-        apply Hnew in Hh. intros X. rewrite ktrace_app in X. apply app_eq_nil in X as [_ X].
-        assert (Hin : In (id, (link, dr_filter rq, dr_idx rq), KRes) evs).
-        { unfold evs. apply in_map_iff. exists rq. split; [reflexivity|]. apply filter_In. split; [exact Hh|].
-          unfold unshared_b. now rewrite Hg. }
-        assert (Hk : In KRes (ktrace (link, dr_filter rq, dr_idx rq) evs)) by (apply ktrace_In; eauto).
-        rewrite X in Hk. destruct Hk.
+        apply Hnew in Hh. rewrite ktrace_app, (Hin_ev _ Hh Hg). intros X. apply app_eq_nil in X as [_ X]. discriminate.
       + destruct (Hold _ _ Ho Hne) as [Ho1 _]. apply ktrace_app_ne. eapply D6; [exact Ho1| |exact Hg]. left. now apply Hheld.
     - intros [[k f] i] a l E. rewrite ktrace_app in E. destruct (N.eq_dec k link) as [-> | Hne].
-      + rewrite (ktrace_fresh tr link f i Hfresh) in E. cbn [app] in E. left.
-        pose proof (ktrace_res_events (link, f, i) id link (filter unshared_b (tr_reqs trk))) as Fa. fold evs in Fa.
-        rewrite E in Fa. inversion Fa; subst. reflexivity.
+      + rewrite (ktrace_fresh trx link f i Hfresh) in E. cbn [app] in E. left.
+        pose proof (ktrace_res_events (link, f, i) id link client ureqs) as Fa. fold evs in Fa.
+        rewrite E in Fa. inversion Fa; subst. assumption.
       + unfold evs in E. rewrite ktrace_res_other, app_nil_r in E by exact Hne. eapply D7; exact E. }
   pose proof (reschedule_keep _ _ _ _ H) as K.
   eapply (di_frame_same st2); [eapply reschedule_hsub; exact H|now apply keep_obufs|eapply reschedule_dl; exact H
@@ -202,9 +267,11 @@ Proof.
     { destruct HDI as [D1 D2 D3 D4 D5 D6 D7]. constructor; try assumption.
       intros id0 k f i a Hin. specialize (D1 _ _ _ _ _ Hin). lia. }
     match type of H3 with handle_new_connection _ ?cn _ = _ =>
-      apply (handle_new_connection_di (r_cfg st) st1 cn (lenN (r_links st)) st' tr); [| |exact HC1| | | |exact HDI1|exact H3] end.
+      apply (handle_new_connection_di (r_cfg st) st1 cn (lenN (r_links st)) st' tr); [| | |exact HC1| | | | |exact HDI1|exact H3] end.
     + apply RInv_links_app; [exact HI|constructor].
     + exact Hn.
+    + eapply dfr_DevE; [exact HD|dfr_triv].
+    + split; [|exact (proj2 HL)]. intros id0 o Ho. pose proof (proj1 HL _ _ Ho). lia.
     + lia.
     + intros id0 k f i a Hin. apply (di_link _ _ _ HDI _ _ _ _ _ Hin).
     + intros id0 o Ho. apply (proj1 HL _ _ Ho).
@@ -231,12 +298,8 @@ Proof.
     eapply di_frame_same; [eapply reschedule_hsub; exact H1|now apply keep_obufs|eapply reschedule_dl; exact H1
                           |now apply keep_links|exact HDI].
   - (* Disconnect *)
-    apply bind_ok in H as ([st2 out2] & H2 & H). inv_ok. rewrite app_nil_r. cbn [step] in H2.
-    apply bind_ok in H2 as (st1 & H1 & H2). inv_ok.
-    destruct (handle_disconnection_cinv _ _ _ _ HC H1) as [_ L1].
-    destruct (handle_disconnection_obs _ _ _ _ H1) as (A & _ & EL & _).
-    eapply di_frame; [exact HC|constructor|eapply handle_disconnection_hsub; exact H1
-                     |eapply obs_at_sub; exact A|exact L1|lia|exact HDI].
+    apply bind_ok in H as ([st2 out2] & H2 & H). inv_ok. cbn [step] in H2.
+    apply bind_ok in H2 as (st1 & H1 & H2). inv_ok. eapply handle_disconnection_di; eassumption.
   - (* Shadow *)
     apply bind_ok in H as ([st2 out2] & H2 & H). inv_ok. rewrite app_nil_r. cbn [step] in H2.
     apply bind_ok in H2 as (st1 & H1 & H2). inv_ok.
